@@ -1,6 +1,5 @@
 package vsim
 
-
 import (
 	"fmt"
 	"time"
@@ -184,7 +183,13 @@ func runC07(c *Ctx) {
 			}
 		}
 	}
-	CheckOrdering(c, keepReaders(clients, everStalled, w))
+	lossy := map[*TClient]bool{}
+	for _, cl := range clients {
+		if everStalled[cl] || DroppedTo(w, cl.ID) > 0 {
+			lossy[cl] = true
+		}
+	}
+	CheckOrderingLossy(c, clients, lossy)
 	CloseAll(c, w, false)
 }
 
